@@ -591,7 +591,8 @@ func loRequire(L *LState) int {
 	for i := 1; ; i++ {
 		loader := L.RawGetInt(loaders, i)
 		if loader == LNil {
-			L.RaiseError("module %s not found:\n\t%s, ", name, strings.Join(messages, "\n\t"))
+			// the format of ll_require in loadlib.c: one line for each place that was tried
+			L.RaiseError("module '%s' not found:\n\t%s", name, strings.Join(messages, "\n\t"))
 		}
 		L.Push(loader)
 		L.Push(LString(name))
